@@ -25,6 +25,11 @@ Theorem C01_roundtrip : forall (E: senv) (P: prims),
 Proof. intros E P HE v. exact (ref_roundtrip E P HE v). Qed.
 Print Assumptions C01_roundtrip.
 
+(* the side condition is conformance plus the TypedDict key order, nothing else *)
+Theorem C01_conf_ord_is_conf : forall (E: senv) (v: pv) (t: sty), conf_ord E v t = true -> conf E v t = true.
+Proof. exact conf_ord_conf. Qed.
+Print Assumptions C01_conf_ord_is_conf.
+
 (* generated code level: BasicDecoder(T).decode(BasicEncoder(T).encode(v)) == v *)
 Theorem C01_roundtrip_codec : forall (E: senv) (P: prims),
   forallb cls_ok E = true ->
